@@ -434,10 +434,9 @@ def encode_weight_and_scale_tensor(
                 # Scales & biases
                 if do_scales:
                     scale_stream = []
-                    core_scales = quantised_scales[
-                        depth_offset + core : depth_offset + core + depth_length : arch.ncores
-                    ]
-                    core_biases = biases[depth_offset + core : depth_offset + core + depth_length : arch.ncores]
+                    # Deinterleave within the depth slice (as core_deinterleave does for the weights)
+                    core_scales = quantised_scales[depth_offset : depth_offset + depth_length][core :: arch.ncores]
+                    core_biases = biases[depth_offset : depth_offset + depth_length][core :: arch.ncores]
                     for j, core_bias in enumerate(core_biases):
                         scale_stream.extend(encode_bias(np.int64(core_bias), *core_scales[j]))
 
